@@ -55,6 +55,9 @@ def gen(rng) -> dict:
     while live:
         j = live.pop(rng.randrange(len(live)))
         ops.append({"op": "dispose", "of": j, "how": rng.choice(HOWS), "k": rng.choice([1, 3, 10])})
+    for o in ops:
+        if o["op"] == "dispose" and o["how"] == "read_k_release" and rng.random() < 0.3:
+            o["but1"] = True
     for i in range(nreq + rng.choice([0, 1, 3])):
         exchanges.append(gen_exchange(rng))
     if cfg["path"] == "direct_tls":
@@ -174,6 +177,8 @@ def run(sc: dict) -> Result:
                         got(rid, d)
                     call("release", r.release_conn)
                 elif how == "read_k_release":
+                    if op.get("but1") and (getattr(r, "length_remaining", None) or 0) > 1:
+                        kk = r.length_remaining - 1  # everything but the last byte: the smallest amount that can be left behind
                     ok, d = call(how, lambda: r.read(kk))
                     if ok and not cfg["preload"]:
                         got(rid, d)
